@@ -317,11 +317,16 @@ Definition log_balanced (scs : list script) (os : list tobs) (log : list logent)
 Definition pool_ok (c : case) : bool :=
   ofinal c =? Z.of_nat (count lostb (olog c)) + Z.of_nat (length (filter still_open (oths c))).
 
+(* "the body is not run if the transaction cannot begin": a Transact / TransactCtx on a transaction's
+   own session (NewSqlConnFromSession(s), CachedConn.WithSession(s)) begins no transaction of its own
+   - nothing reaches the driver on its behalf - so the body handed to it is never run *)
+Definition no_nested_body (c : case) : bool := forallb (fun o => o_nest o =? 0) (oths c).
+
 Definition prop_ok (c : case) : bool :=
   prop_threads 0 (cscripts c) (oths c) (olog c) &&
   (* no driver call on behalf of nobody *)
   forallb (fun e => Nat.ltb (etid e) (length (cscripts c))) (olog c) &&
-  log_balanced (cscripts c) (oths c) (olog c) && pool_ok c.
+  log_balanced (cscripts c) (oths c) (olog c) && pool_ok c && no_nested_body c.
 
 (* ---- the model reproduces exactly what the implementation did ------------------ *)
 Definition model_world (c : case) : world := exec (cguard c) (cscripts c) (csched c) (coracle c).
